@@ -19,7 +19,8 @@ RULE = ('a variadic probe function returns a token that encodes exactly what mem
 DISTINCT = ('config_cells',)
 REQUIRED = ('wrapper_calls', 'signatures', 'repeat_calls_served_from_cache', 'key_pairs_compared', 'expiry_cases',
             'expire_zero_cases', 'falsy_results', 'decorator_cache', 'decorator_fanout', 'decorator_index',
-            'decorator_django', 'decorator_stampede', 'derived_name_cases', 'contended_first_calls')
+            'decorator_django', 'decorator_stampede', 'derived_name_cases', 'contended_first_calls',
+            'decorator_objects_reused')
 ASSUMPTIONS = ('two calls are "the same arguments" when positional/keyword binding matches and values are equal under == '
                '(and have equal types when typed); ignored positions/names are removed first',
                'memoize_stampede: the probe runs in ~0 virtual time so early recomputation has probability ~0')
@@ -111,36 +112,47 @@ def ser(put):
 
 
 def build(dc, sc, kind, clock):
-    """Return (decorate(func, **opts), cache-like, closer, key_bytes(key))."""
+    """Return (decorate(func, **opts), cache-like, closer, key_bytes(key)).  decorate.many(funcs, **opts) applies ONE
+    decorator object (one memoize(...) call) to several functions."""
     d = sc.new()
     if kind == 'cache':
         c = dc.Cache(d)
-        return (lambda f, **o: c.memoize(**o)(f)), c, c.close, lambda key: ser(c.disk.put(key)), d
-    if kind == 'fanout':
+        factory, cache, closer, kb = (lambda **o: c.memoize(**o)), c, c.close, (lambda key: ser(c.disk.put(key)))
+    elif kind == 'fanout':
         c = dc.FanoutCache(d, shards=3)
-        return (lambda f, **o: c.memoize(**o)(f)), c, c.close, lambda key: ser(c.disk.put(key)), d
-    if kind == 'index':
+        factory, cache, closer, kb = (lambda **o: c.memoize(**o)), c, c.close, (lambda key: ser(c.disk.put(key)))
+    elif kind == 'index':
         ix = dc.Index(d)
 
-        def deco(f, **o):
+        def factory(**o):
             o.pop('expire', None)
-            return ix.memoize(**o)(f)
-        return deco, ix.cache, ix.cache.close, lambda key: ser(ix.cache.disk.put(key)), d
-    if kind == 'django':
+            return ix.memoize(**o)
+        cache, closer, kb = ix.cache, ix.cache.close, (lambda key: ser(ix.cache.disk.put(key)))
+    elif kind == 'django':
         from diskcache import DjangoCache
         dj = DjangoCache(d, {'SHARDS': 2})
 
-        def deco(f, **o):
+        def factory(**o):
             if 'expire' in o:
                 o['timeout'] = o.pop('expire')
-            return dj.memoize(**o)(f)
-        return deco, dj._cache, dj.close, lambda key: ser(dj._cache.disk.put(dj.make_key(key))), d
-    c = dc.Cache(d)
+            return dj.memoize(**o)
+        cache, closer, kb = dj._cache, dj.close, (lambda key: ser(dj._cache.disk.put(dj.make_key(key))))
+    else:
+        c = dc.Cache(d)
+
+        def factory(**o):
+            expire = o.pop('expire', 1000)
+            return dc.memoize_stampede(c, expire, **o)
+        cache, closer, kb = c, c.close, (lambda key: ser(c.disk.put(key)))
 
     def deco(f, **o):
-        expire = o.pop('expire', 1000)
-        return dc.memoize_stampede(c, expire, **o)(f)
-    return deco, c, c.close, lambda key: ser(c.disk.put(key)), d
+        return factory(**o)(f)
+
+    def many(funcs, **o):
+        one_decorator = factory(**o)
+        return [one_decorator(f) for f in funcs]
+    deco.many = many
+    return deco, cache, closer, kb, d
 
 
 def sweep(dc, sc, res, kind, typed, ignore, named, sigs, label):
@@ -308,6 +320,18 @@ def extras(dc, sc, res, kind, label):
         res.count('evaluations')
         if a != ('scope1', 5) or b != ('scope2', 5):
             res.violation('%s: two functions with derived names share an entry: %r %r' % (kind, a, b), {'label': label})
+        # one decorator object applied to several functions: each keeps its own entries (the name is derived per function)
+        def scope3():
+            def g(x):
+                return ('scope3', x)
+            return g
+        wa, wb, wc = deco.many([scope1(), scope2(), scope3()])
+        ra, rb, rc = wa(6), wb(6), wc(6)
+        res.count('decorator_objects_reused')
+        res.count('evaluations')
+        if (ra, rb, rc) != (('scope1', 6), ('scope2', 6), ('scope3', 6)):
+            res.violation('%s: functions decorated with one decorator object share entries: %r %r %r' % (kind, ra, rb, rc),
+                          {'label': label})
         # Django: versions separate entries
         if kind == 'django':
             from diskcache import DjangoCache  # noqa
